@@ -26,7 +26,13 @@ def num(n):
     return "#%d" % n
 
 
+def pattern(n):
+    return bytes(((i * 7 + 3) & 255) for i in range(n))
+
+
 def unhex(tok):
+    if tok.startswith("z"):
+        return pattern(int(tok[1:]))
     assert tok.startswith("x"), tok
     return bytes.fromhex(tok[1:])
 
@@ -73,9 +79,38 @@ def is_ok(line):
     return line.startswith("ok")
 
 
+def checksum(b):
+    s1 = 7
+    s2 = 0
+    for x in b:
+        s1 += x
+        s2 += s1
+    return s2
+
+
+class Summed(object):
+    """Output reported as length + checksum only (write_sum / write_from)."""
+    def __init__(self, n, cs):
+        self.n = n
+        self.cs = cs
+
+    def __len__(self):
+        return self.n
+
+    def __eq__(self, other):
+        if isinstance(other, (bytes, bytearray)):
+            return len(other) == self.n and checksum(other) == self.cs
+        return isinstance(other, Summed) and (self.n, self.cs) == (other.n, other.cs)
+
+    def __ne__(self, other):
+        return not self.__eq__(other)
+
+
 def parse_counts(line):
-    """'ok #i #o xhex' -> (i, o, bytes)"""
+    """'ok #i #o xhex' -> (i, o, bytes);  'ok #i #o #checksum' -> (i, o, Summed)"""
     p = line.split(" ")
+    if p[3].startswith("#"):
+        return unnum(p[1]), unnum(p[2]), Summed(unnum(p[2]), unnum(p[3]))
     return unnum(p[1]), unnum(p[2]), unhex(p[3])
 
 
